@@ -79,7 +79,7 @@ class Verdict:
     def counts(self):
         return dict(exact_unsat=self.exact_unsat, margin_unsat=self.margin_unsat, sat=self.sat, unknown=self.unknown, trivial=self.trivial)
 
-def equiv(ref, other, *, pc=(), defined=(), side=(), timeout_ms=30000, margin=None, box=8, max_models=2, exact_first=True, extra=()):
+def equiv(ref, other, *, pc=(), defined=(), side=(), timeout_ms=30000, margin=None, box=8, max_models=2, exact_first=True, extra=(), budget_s=None):
     '''Decide "exists inputs: pc & side & defined & ref_i != other_i" per output element.
 
     margin: None -> exact only.  float -> on exact `sat`, retry as a margin query on the box
@@ -91,7 +91,11 @@ def equiv(ref, other, *, pc=(), defined=(), side=(), timeout_ms=30000, margin=No
     s = z3.Solver(); s.set('timeout', timeout_ms)
     s.add(*pc); s.add(*side); s.add(*defined); s.add(*extra); s.add(*_sym.UF_AXIOMS())
     boxed = None
+    import time as _time
+    t_start = _time.time()
     for idx, (a, b) in enumerate(zip(ra, rb)):
+        if budget_s is not None and _time.time() - t_start > budget_s:
+            v.unknown += 1; continue
         t = neq_term(a, b)
         if t is False:
             v.trivial += 1; continue
